@@ -151,15 +151,24 @@ def one_history(ctx, rng, kind, with_objective=True, max_constraints=4):
             bounds, bstyle = None, "none"
         elif b < 0.55:
             bounds, bstyle = (tmin, tmax), "exact"
-        elif b < 0.7:
+        elif b < 0.66:
             bounds, bstyle = (tmin - rng.randint(0, 2), tmax + rng.randint(0, 2)), "widened"
-        elif b < 0.85:
+        elif b < 0.76:
+            # any valid enclosure: bounds need not be integers, nor attained
+            bounds, bstyle = (tmin - rng.choice([0.5, 1.5, 2.5, 0.25]), tmax + rng.choice([0, 0.5, 1.5])), "widened-fractional"
+            if rng.random() < 0.3:
+                bounds = list(bounds)
+        elif b < 0.88:
             bounds, bstyle = (tmin, None), "lower-only"
         else:
             bounds, bstyle = (None, tmax), "upper-only"
         kw = {"lam": lam, "bounds": bounds}
         if R != "eq":
             kw["log_trick"] = log_trick
+            if rng.random() < 0.2:
+                # the same truth value spelled as an int or a numpy bool (comparison results, parsed options)
+                kw["log_trick"] = rng.choice([1, np.True_] if log_trick else [0, np.False_])
+                ctx.cat("log_trick-spelled-as-int-or-numpy-bool")
         suppress = rng.random() < 0.15
         if suppress:
             kw["suppress_warnings"] = True
@@ -227,6 +236,42 @@ def one_history(ctx, rng, kind, with_objective=True, max_constraints=4):
             if H.constraints != c0 or H.num_ancillas != a0 or dict(H) != t0:
                 ctx.violation("refresh:constraints-or-ancillas-changed", "refresh() between constraints changed constraints / num_ancillas (%r -> %r) / terms" % (a0, H.num_ancillas),
                               {"model": T.__name__, "history": hist})
+                return
+        if rng.random() < 0.25:
+            # something else happens to the model between two constraints: objective terms merged in from another model of the
+            # same class, or the history continues on a copy; recorded constraints and the ancilla count stay what they were
+            import copy as _copy
+            how = rng.choice(["update-with-model", "iadd-model", "deepcopy", "copy.copy", "copy()", "copy-constructor"])
+            c0, a0 = H.constraints, H.num_ancillas
+            t0 = ref.from_raw(kind, dict(H))
+            extra = T()
+            for k_, v_ in gen.rand_terms(rng, labs, 2, coefs=[1, -1, 2, 3], lo=1, hi=2).items():
+                extra[k_] += v_
+            w_ = {"model": T.__name__, "history": hist + [[how]]}
+            if how == "update-with-model":
+                okb, _ = ctx.call("update", H.update, extra, _w=w_)
+            elif how == "iadd-model":
+                okb, H2 = ctx.call("iadd", H.__iadd__, extra, _w=w_)
+            elif how == "deepcopy":
+                okb, H2 = ctx.call("deepcopy", _copy.deepcopy, H, _w=w_)
+            elif how == "copy.copy":
+                okb, H2 = ctx.call("copy.copy", _copy.copy, H, _w=w_)
+            elif how == "copy()":
+                okb, H2 = ctx.call("copy", H.copy, _w=w_)
+            else:
+                okb, H2 = ctx.call("copy-constructor", T, H, _w=w_)
+            if not okb:
+                return
+            if how not in ("update-with-model",):
+                if how != "iadd-model" and (H2 is H or type(H2) is not T or ref.from_raw(kind, dict(H2)) != t0):
+                    ctx.violation("%s:copy-differs" % how, "%s gave %s %r" % (how, type(H2).__name__, dict(H2)), w_)
+                    return
+                H = H2
+            hist.append([how] + ([dict(extra)] if "model" in how else []))
+            ctx.cat("between-constraints:" + how)
+            if H.constraints != c0 or H.num_ancillas != a0:
+                ctx.violation("%s:constraints-or-ancillas-changed" % how, "%s between constraints changed the recorded constraints or num_ancillas (%r -> %r)" % (
+                    how, a0, H.num_ancillas), {"model": T.__name__, "history": hist})
                 return
         if not interleaved_validity("after constraint %d" % (ci + 1)):
             return
